@@ -8,6 +8,7 @@ import (
 	"context"
 	"encoding/json"
 	"fmt"
+	context2 "github.com/oneconcern/datamon/pkg/context"
 	"os"
 	"sort"
 	"strings"
@@ -24,7 +25,7 @@ import (
 	"verifharness/hx"
 )
 
-var stats = evid.New("C17", "rapid: a bundle built by a real upload of a generated tree (shapes: mixed = hx.GenTree 1..10 files with unicode/space/dot names and reserved-path decoys; wide = one directory with 1..100 children (files and sub-directories, names of 1..56 bytes so that dirents have different sizes) plus a few multi-leaf files; deep = a chain 6..12 levels deep with files on the way; tiny = 0..2 files incl. the empty bundle), leaf 4096..65536, file sizes k*L+d (k 0..3), optionally some entries renamed to .conflicts/<split>/<path> in the stored file list; mounted with NewReadOnlyFS exactly like `datamon bundle mount` (streamed: cache 1..4 leaves or default, prefetch 0..2, hash verification on/off; or staged = pre-downloaded); then a generated program of 8..40 operations issued like the kernel would (paths resolved by LookUpInode from the root): lookup (present), lookup of absent names (foreign name, prefix, extension, other case), getattr, opendir+readdir walks with buffer sizes from {64,128,512,4096} (raised to the size of the largest dirent of that directory) followed by walks resumed at previously returned offsets, read(off,len) with offsets around leaf boundaries / EOF / past EOF. Oracle: map model of the tree. Non-trivial: the program contains a resumed readdir on a directory that needed >= 2 buffers, or a read spanning a leaf boundary; distinct by (shape, depth class, sibling class, empty file, multi-leaf file, conflicts, mode, op mix).")
+var stats = evid.New("C17", "rapid: a bundle built by a real upload of a generated tree (shapes: mixed = hx.GenTree 1..10 files with unicode/space/dot names and reserved-path decoys; wide = one directory with 1..100 children (files and sub-directories, names of 1..56 bytes so that dirents have different sizes) plus a few multi-leaf files; deep = a chain 6..12 levels deep with files on the way; tiny = 0..2 files incl. the empty bundle), leaf 4096..65536, file sizes k*L+d (k 0..3), optionally some entries renamed to .conflicts/<split>/<path> in the stored file list; mounted with NewReadOnlyFS exactly like `datamon bundle mount` (streamed: cache 1..4 leaves or default, prefetch 0..2, hash verification on/off; or staged = pre-downloaded); then a generated program of 8..40 operations issued like the kernel would (paths resolved by LookUpInode from the root): lookup (present), lookup of absent names (foreign name, prefix, extension, other case), getattr, opendir+readdir walks with buffer sizes from {64,128,512,4096} (raised to the size of the largest dirent of that directory) followed by walks resumed at previously returned offsets, read(off,len) with offsets around leaf boundaries / EOF / past EOF, one read in six while the mount's next blob download breaks half-way (that read may fail, never return wrong bytes; later reads are exact). Oracle: map model of the tree. Non-trivial: the program contains a resumed readdir on a directory that needed >= 2 buffers, or a read spanning a leaf boundary; distinct by (shape, depth class, sibling class, empty file, multi-leaf file, conflicts, mode, op mix).")
 
 func TestMain(m *testing.M) {
 	code := m.Run()
@@ -387,6 +388,9 @@ func drawProgram(t *rapid.T, m *modelT, L int) []opT {
 				op.Resume = append(op.Resume, resumeT{At: rapid.IntRange(0, 100).Draw(t, "at"), Buf: drawBuf(t, m, op.Path, "rbuf")})
 			}
 		case "read":
+			if rapid.IntRange(0, 5).Draw(t, "breakread") == 0 {
+				op.Kind = "breakread"
+			}
 			if rapid.Bool().Draw(t, "bigfile") {
 				op.Path = bigFile
 			} else {
@@ -472,13 +476,17 @@ func forgeConflicts(env *hx.Env, repo, id string, renames []renameT) error {
 	return nil
 }
 
+// lastBreaker is the blob store wrapper of the most recent mount (cases run one at a time)
+var lastBreaker *breaker
+
 // mount builds the read-only file system for a bundle the way `datamon bundle mount` does: the
 // bundle object only knows the repo, the bundle id, the context and an empty destination.
 func mount(sc *hx.Scratch, v *hx.Views, repo, id string, m modeT, leaf uint32) (*dfuse.ReadOnlyFS, error) {
 	dest := sc.Dir("mnt")
+	lastBreaker = &breaker{Store: v.Blob}
 	b := core.NewBundle(
 		core.Repo(repo),
-		core.ContextStores(v.Stores),
+		core.ContextStores(context2.NewStores(v.Wal, v.ReadLog, lastBreaker, v.Meta, v.VMeta)),
 		core.ConsumableStore(hx.Local(dest)),
 		core.BundleID(id),
 		core.Logger(hx.Nop),
@@ -506,6 +514,8 @@ type outcome struct {
 	spanning     bool // a read spanning a leaf boundary
 	pageMulti    bool // a directory whose listing with a page-sized (4096) buffer needed >= 2 calls
 	kinds        map[string]bool
+	broken       int // reads during which a blob download of the mount broke half-way
+	brokenFailed int // ... that answered an error
 }
 
 func runCase(c caseT) (*outcome, error) {
@@ -529,6 +539,7 @@ func runCase(c caseT) (*outcome, error) {
 		return nil, fmt.Errorf("NewReadOnlyFS(%+v): %v", c.Mode, err)
 	}
 	k := newKernel(rofs.VerifFileSystem(), m)
+	k.brk = lastBreaker
 	out := &outcome{kinds: map[string]bool{}}
 	for i, op := range c.Program {
 		if err := k.exec(op, int(c.Tree.Leaf), out); err != nil {
@@ -658,6 +669,13 @@ func record(c caseT, out *outcome) {
 		stats.Count("mode_streamed", 1)
 	} else {
 		stats.Count("mode_staged", 1)
+	}
+	if out.broken > 0 {
+		stats.Count("reads_during_a_broken_blob_transfer", out.broken)
+		stats.Count("reads_during_a_broken_blob_transfer_answering_an_error", out.brokenFailed)
+	}
+	if c.Mode.Preload {
+		stats.Count("mode_metadata_preloaded", 1)
 	}
 	if out.resumedMulti {
 		stats.Count("resumed_multibuffer_readdir", 1)
